@@ -73,8 +73,9 @@ Record ctx := mk_ctx {
   c_use_ts : bool; c_last_ts : Z; c_saved : list nat }.
 
 (* one oracle answer is consumed by every callback invocation *)
-Record ans := mk_ans { a_full : bool; a_toggle : option bool; a_newbuf : option nat; a_inc : nat }.
-Definition default_ans := mk_ans false None None 1.
+Record ans := mk_ans { a_full : bool; a_toggle : option bool; a_newbuf : option nat; a_inc : nat;
+                       a_eager : bool }.
+Definition default_ans := mk_ans false None None 1 false.
 
 Inductive ev :=
 | ECb (kind : nat) (flag : bool) (is_open : bool)
@@ -259,10 +260,12 @@ Section Stream.
     (* the platform hands the packet over only if one was really closed *)
     if was_open && negb (c_open c) then
       let w := logev w (EPacket (c_psize c) (bytes_of_stream (d_bo d) (c_s c) (c_psize c / 8))) in
-      match a_newbuf a with
-      | Some b => set_c w (packet_set_buf (w_c w) b)
-      | None => w
-      end
+      let w := match a_newbuf a with
+               | Some b => set_c w (packet_set_buf (w_c w) b)
+               | None => w
+               end in
+      (* "eager" (double-buffering) platform: opens the next packet itself right away *)
+      if a_eager a then open_fn w else w
     else w.
 
   Definition with_use_ts (f : world -> world) (w : world) : world :=
